@@ -85,10 +85,11 @@ def parseCfg? (t : List String) : Option ChanCfg :=
 
 def parsePulse? (t : List String) : Option PulseIn :=
   match t with
-  | [dur, res, phase, post, fs, fe, dd, ref, sum] => do
+  | [dur, res, phase, post, fs, fe, dd, ref, sum, const, amp, det] => do
     pure { dur := ← parseNat? dur, resizable := ← parseBool? res, phase := ← parseRat? phase,
            post := ← parseRat? post, fallStd := ← parseNat? fs, fallEom := ← parseNat? fe,
-           dd := ← parseBool? dd, ref := ← parseNat? ref, sum := ← parseSum? sum }
+           dd := ← parseBool? dd, ref := ← parseNat? ref, sum := ← parseSum? sum,
+           const := ← parseBool? const, amp := ← parseRat? amp, det := ← parseRat? det }
   | _ => none
 
 def parseEomIn? (t : List String) : Option EomIn :=
